@@ -251,6 +251,8 @@ def run_property(pid, tier, seed, replay=None, spec=None):
         seed, tier, want_ids = hdr["seed"], hdr["tier"], set(hdr["ids"])
     ran = []
     gen_counts = {}
+    ship_stats = {"scenarios": 0, "identical": 0}
+    ship_lines = []
     for scen_index, (kind, scen, required) in enumerate(spec["scen"]):
         if replay and hdr.get("scenario") and hdr["scenario"] != scen:
             continue
@@ -273,6 +275,8 @@ def run_property(pid, tier, seed, replay=None, spec=None):
             notes.append(f"hook tier unavailable, scenario '{scen}' skipped: {str(e)[:300]}")
             log(f"[skip] {scen}: hooked harness does not build; the public-API scenarios decide")
             continue
+        if replay and hdr.get("build") == "shipping" and kind == "core":
+            binary = runner.build_harness("shipping")
         scen_full, variant = scen, ""
         if ":" in scen:
             scen, variant = scen.split(":", 1)
@@ -316,6 +320,26 @@ def run_property(pid, tier, seed, replay=None, spec=None):
         tv_total["diags"] += [dict(d, scenario=scen_full) for d in r["diags"]]
         tv_total["notes"] += r["notes"]
         ran.append(scen_full)
+        # second build configuration: the same scenario driven against the crate compiled as users ship it (no debug assertions,
+        # no overflow checks).  Identical trace -> identical verdict, nothing more to judge; a different trace is judged as well.
+        if kind == "core" and not replay:
+            try:
+                ship = runner.build_harness("shipping")
+            except ToolError as e:
+                ship = None
+                notes.append(f"shipping flavour does not build: {str(e)[:200]}")
+            if ship:
+                evs = evp[:-len(".ndjson")] + ".shipping.ndjson"
+                runner.drive(ship, scen, seed, tier, evs, extra=extra)
+                same = open(evs, "rb").read() == open(evp, "rb").read()
+                ship_stats["scenarios"] += 1
+                ship_stats["identical"] += 1 if same else 0
+                if not same:
+                    r2 = runner.validate_trace(evs, os.path.join(wd, "tv_ship_" + scen + variant))
+                    tv_total["events"] += r2["events"]
+                    tv_total["diags"] += [dict(d, scenario=scen_full, build="shipping") for d in r2["diags"]]
+                    ship_lines += [l for l in open(evs).read().split("\n") if l.strip()]
+                os.remove(evs)
     # 3. verdict: only diagnostics of this property; known findings subtracted
     own = [d for d in tv_total["diags"] if d["property"] == pid or (pid == "G01" and d["property"].startswith("G"))]
     others = {}
@@ -361,6 +385,7 @@ def run_property(pid, tier, seed, replay=None, spec=None):
         "other_property_diagnostics": others,
         "spec_invariants": spec.get("invariants", ""),
         "scenarios": ran,
+        "shipping_build": dict(ship_stats, note="public-API scenarios driven a second time against the crate compiled without debug assertions and overflow checks; a byte-identical trace shares the verdict, a different one is judged too"),
         "notes": notes + [json.dumps(x)[:400] for x in tv_total["notes"][:3]],
         "exhaustive": False,
         "enumerated_domains": doms,
@@ -371,21 +396,24 @@ def run_property(pid, tier, seed, replay=None, spec=None):
     nviol = 0
     if fresh:
         os.makedirs(os.path.join(ROOT, "replay"), exist_ok=True)
-        byid = {}
-        for l in all_lines:
-            m = re.search(r'"id":(\d+)', l)
-            if m:
-                byid.setdefault(int(m.group(1)), []).append(l)
+        byid = {"": {}, "shipping": {}}
+        for b_, ls_ in (("", all_lines), ("shipping", ship_lines)):
+            for l in ls_:
+                m = re.search(r'"id":(\d+)', l)
+                if m:
+                    byid[b_].setdefault(int(m.group(1)), []).append(l)
         groups = {}
         for d in fresh:
-            groups.setdefault((d["scenario"], d["why"]), []).append(d)
-        for n_, ((scen, why), ds) in enumerate(sorted(groups.items())):
+            groups.setdefault((d["scenario"], d["why"], d.get("build", "")), []).append(d)
+        for n_, ((scen, why, build), ds) in enumerate(sorted(groups.items())):
             path = os.path.join(ROOT, "replay", f"{pid}-{tier}-{seed}-{n_}.ndjson")
             ids = sorted({d["id"] for d in ds})[:20]
-            evs = [l for i in ids for l in byid.get(i, []) if f'"tag":"{[d for d in ds if d["id"] == i][0].get("tag","")}"' in l]
+            evs = [l for i in ids for l in byid[build].get(i, []) if f'"tag":"{[d for d in ds if d["id"] == i][0].get("tag","")}"' in l]
             grps = sorted({json.loads(l).get("grp", 0) for l in evs} - {0})
+            if build:
+                why += " [crate compiled without debug assertions and overflow checks; the default test profile does not show it]"
             with open(path, "w") as f:
-                f.write(json.dumps({"property": pid, "why": why, "scenario": scen, "seed": seed, "tier": tier, "ids": ids, "grps": grps, "count": len(ds),
+                f.write(json.dumps({"property": pid, "why": why, "scenario": scen, "build": build, "seed": seed, "tier": tier, "ids": ids, "grps": grps, "count": len(ds),
                                     "replay": f"./check {pid} --replay {path}"}) + "\n")
                 for l in evs:
                     f.write(l + "\n")
